@@ -537,12 +537,13 @@ pub fn xpath_query_op(kind: &str, a: &Args) -> Option<Outcome> {
         "node_test" => {
             let d = "<r x='1' y='2'>t<a/><!--c--><?p d?><b>u<c/></b><![CDATA[z]]></r>";
             let (_, doc) = xml_dom::XmlDocument::from_raw(d).ok()?;
-            let table: [(&str, &str); 16] = [
+            let table: [(&str, &str); 20] = [
                 ("count(/r/*)", "2"), ("count(/r/node())", "6"), ("count(/r/text())", "2"), ("count(/r/comment())", "1"),
                 ("count(/r/processing-instruction())", "1"), ("count(/r/processing-instruction('p'))", "1"),
                 ("count(/r/processing-instruction('q'))", "0"), ("count(/r/@*)", "2"), ("count(//*)", "4"), ("count(/r/b/*)", "1"),
                 ("count(/r/child::*)", "2"), ("count(/r/descendant::*)", "3"), ("count(/r/a/following-sibling::*)", "1"),
                 ("count(/r/b/preceding-sibling::*)", "1"), ("count(/r/namespace::*)", "1"), ("count(/r/namespace::node())", "1"),
+                ("count((/r/*)[1]/self::a)", "1"), ("count(/r/*[2]/self::b)", "1"), ("count(/r/*[last()]/self::b)", "1"), ("count(/r/*[position() = 1]/self::a)", "1"),
             ];
             let (query, want) = table.iter().find(|t| t.0 == q.as_str()).copied()?;
             let observed = guard(|| show_query(&doc, query, &mut Context::default()));
@@ -820,7 +821,8 @@ pub fn xpath_grid(rest: &[&str]) -> Vec<Args> {
         ["query", "node_test"] => {
             for q in ["count(/r/*)", "count(/r/node())", "count(/r/text())", "count(/r/comment())", "count(/r/processing-instruction())",
                       "count(/r/processing-instruction('p'))", "count(/r/processing-instruction('q'))", "count(/r/@*)", "count(//*)", "count(/r/b/*)",
-                      "count(/r/child::*)", "count(/r/descendant::*)", "count(/r/a/following-sibling::*)", "count(/r/b/preceding-sibling::*)", "count(/r/namespace::*)", "count(/r/namespace::node())"] {
+                      "count(/r/child::*)", "count(/r/descendant::*)", "count(/r/a/following-sibling::*)", "count(/r/b/preceding-sibling::*)", "count(/r/namespace::*)", "count(/r/namespace::node())",
+                      "count((/r/*)[1]/self::a)", "count(/r/*[2]/self::b)", "count(/r/*[last()]/self::b)", "count(/r/*[position() = 1]/self::a)"] {
                 out.push(mk(&[("query", q)]));
             }
         }
